@@ -73,5 +73,14 @@ DefinedAny(x, img, s2) == IF x.t \in {"conv", "ccomp", "cbin", "cneg"} THEN Defi
 RadiusPx(r2, s2) == IF r2 < s2 THEN 0 ELSE -((-r2) \div s2)
 BallCount(r) == Cardinality({v \in ((-r)..r) \X ((-r)..r) \X ((-r)..r) : v[1]*v[1] + v[2]*v[2] + v[3]*v[3] <= r * r})
 (* from_gaussian(shape_nm, sigma, shift): pixel shape = round(shape/scale); the maximum lies at the voxel(s)
-   nearest to (shape_px - 1)/2 + shift/scale.   Everything in quarter pixels to stay integral. *)
+   nearest to (shape_px - 1)/2 + shift/scale.  Lengths are integers in tenths of a nanometre. *)
+RoundTie(n, d) == (2 * n) % (2 * d) = d                      \* n/d lies exactly between two integers (not claimed)
+RoundDiv(n, d) == (2 * n + d) \div (2 * d)                   \* nearest integer to n/d for n >= 0, d > 0
+GaussShapePx(shape10, scale10) == RoundDiv(shape10, scale10)
+(* centre along one axis as a rational <<num, den>>: (shape_px - 1)/2 + shift/scale.  It depends on the ROUNDED
+   pixel shape, so that the unshifted Gaussian is point-symmetric in the array that is actually returned *)
+GaussCentre(shape10, scale10, shift10) == <<(GaussShapePx(shape10, scale10) - 1) * scale10 + 2 * shift10, 2 * scale10>>
+GaussSymmetric(shape10, scale10) ==
+  LET n == GaussShapePx(shape10, scale10) c == GaussCentre(shape10, scale10, 0) IN
+  \A k \in 0..(n - 1) : (k * c[2] - c[1]) = -(((n - 1 - k) * c[2]) - c[1])      \* voxel k and its mirror are equidistant
 =============================================================================
